@@ -140,7 +140,7 @@ fn plans_c09(tier: Tier) -> Vec<Plan> {
 fn plans_c14(tier: Tier) -> Vec<Plan> {
     let q = tier == Tier::Quick;
     let mut v = vec![];
-    let mut c = mk("C14", 0, 3, &["w"], &["w"]);
+    let mut c = mk("C14", 0, 3, &["w", "z"], &["w", "$share/g/z"]);
     c.prelude.push(Act::Sub { c: 1, f: 0, qos: 1 });
     v.push(Plan { cfg: c.clone(), depth_by_devs: if q { vec![5, 4] } else { vec![8, 6, 5] } });
     let mut c1 = c.clone();
@@ -165,6 +165,10 @@ fn plans_c15(tier: Tier) -> Vec<Plan> {
         d.order_desc = desc;
         v.push(Plan { cfg: d, depth_by_devs: if q { vec![3] } else { vec![5, 4] } });
     }
+    // small delivery window: 3 retained topics must still fit into a window of 4
+    let mut cw = c.clone();
+    cw.max_out = 4;
+    v.push(Plan { cfg: cw, depth_by_devs: if q { vec![4] } else { vec![5] } });
     let mut c1 = c.clone();
     c1.variant = 1;
     c1.topics = s(&["r/a", "r/b"]);
